@@ -70,6 +70,26 @@ Theorem C14_best_chain_restarts :
 Proof. intros g h0 rops. rewrite restarts_transparent. apply best_chain_thm. Qed.
 Print Assumptions C14_best_chain_restarts.
 
+(** "Within the window": the tracker remembers up to MAX_REORG_SIZE = 100 previous headers;
+    after any sequence of connections, disconnections and restarts, the next disconnection
+    is accepted exactly when it neither goes below the height at which the tracker was
+    created nor more than MAX_REORG_SIZE blocks below the highest block ever connected - in
+    particular a reorganisation of exactly MAX_REORG_SIZE blocks is inside the window. *)
+Theorem C14_window :
+  forall ops : list wop,
+    let s := wrun winit ops in
+    snd (wnext s WRemove) = true <-> (0 < w_len s /\ w_peak s - w_len s < MAX_REORG_SIZE).
+Proof. exact window_accepts. Qed.
+Print Assumptions C14_window.
+Example C14_window_edge :
+  let connect n := repeat WAdd n in let disconnect n := repeat WRemove n in
+  (* 103 connected, 99 back, 99 forward, exactly 100 back: all accepted; one more: refused *)
+  win_trace winit (connect 103%nat ++ disconnect 99%nat ++ connect 99%nat ++ disconnect 100%nat ++ [WRemove])
+  = map Some (map N.of_nat (seq 1 100)) ++ [Some 100; Some 100; Some 100]
+    ++ map Some (map N.of_nat (rev (seq 1 99))) ++ map Some (map N.of_nat (seq 2 99))
+    ++ map Some (map N.of_nat (rev (seq 0 100))) ++ [None].
+Proof. vm_compute. reflexivity. Qed.
+
 (** Processing an admissible history never aborts: neither a connection nor a disconnection. *)
 Theorem C14_no_abort :
   forall (g : cfg) (h0 : N) (ops : list op),
